@@ -32,6 +32,8 @@ enum Tri3 {
     TargetPortEq(u16),
     TargetPortGe(u16),
     TargetPortIn(Vec<u16>),
+    PortInComputed(u16),    // request.target.port _: [request.source.port, (p - 1) + 1, 0 - 1]  (members are expressions)
+    HostInAttrs(String),    // "<s>" _: [request.target.host, request.listener]
     FeatureEq(String),
     TargetHostLike(String),
     TargetLikeExact(String),
@@ -72,6 +74,8 @@ fn eval_atom(a: &Tri3, r: &Req) -> Tri {
         Tri3::TargetPortEq(p) => b(r.target.port() == *p),
         Tri3::TargetPortGe(p) => b(r.target.port() >= *p),
         Tri3::TargetPortIn(v) => b(v.contains(&r.target.port())),
+        Tri3::PortInComputed(p) => b(r.target.port() == r.source.port() || r.target.port() == *p),
+        Tri3::HostInAttrs(s2) => b(&thost == s2 || &r.listener == s2),
         Tri3::FeatureEq(s) => b(feature_name(r.feature) == s),
         Tri3::TargetHostLike(s) => b(thost.contains(s.as_str())),
         Tri3::TargetLikeExact(s) => b(&r.target.to_string() == s),
@@ -188,10 +192,21 @@ fn atom(r: &mut Rng, req: &Req) -> Flt {
             let p = *r.pick(&[0u16, 1, 80, 443, 1024, 65535]);
             (format!("request.target.port >= {}", p), Tri3::TargetPortGe(p))
         }
-        7 => {
-            let v = vec![*r.pick(&[22u16, 80]), *r.pick(&[443u16, 8080, 0])];
-            (format!("request.target.port _: [{}, {}]", v[0], v[1]), Tri3::TargetPortIn(v))
-        }
+        7 => match r.below(3) {
+            0 => {
+                let v = vec![*r.pick(&[22u16, 80]), *r.pick(&[443u16, 8080, 0])];
+                (format!("request.target.port _: [{}, {}]", v[0], v[1]), Tri3::TargetPortIn(v))
+            }
+            1 => {
+                // members that are not literals: an attribute, arithmetic, a negative number
+                let p = if near { req.target.port() } else { *r.pick(&[80u16, 443, 8080]) };
+                (format!("request.target.port _: [request.source.port, ({} - 1) + 1, 0 - 1]", p), Tri3::PortInComputed(p))
+            }
+            _ => {
+                let s2 = if near { req.target.host() } else { (*r.pick(&["http", "example.com", "nobody"])).to_string() };
+                (format!("{} _: [request.target.host, request.listener]", q(&s2)), Tri3::HostInAttrs(s2))
+            }
+        },
         8 => {
             let f = if near { feature_name(req.feature).to_string() } else { (*r.pick(&["TcpForward", "UdpForward", "UdpBind"])).to_string() };
             (format!("request.feature == {}", q(&f)), Tri3::FeatureEq(f))
